@@ -16,6 +16,25 @@ NOTES = {
     'C16-m2': 'first a loud harness error (np.log of a symbolic real); log added (LogP value of the argument), then detected',
     'C02-m2': 'first model sat on the 1e-5 knife edge and did not reproduce in floats; robust-model selection added, then detected',
     'C04-m1': 'uses torch.roll: added to the torch shim',
+    'C06-m3': 'first missed (one line per block): tasks added in which an Arabic line precedes the line in the same block, over an alphabet with a Latin delimiter',
+    'C06-m4': 'first missed by C06 (get_line_confidence was only its contract stub) while the C16 check reported it (exception:ValueError); C06 now also runs tasks composed with the real get_line_confidence',
+    'C09-m3': 'first missed (each line densified once): the dense task now assigns other logits to the same line object and densifies again',
+    'C03-m4': 'first a harness error twice over: (1) the bag\'s archived weight was compared by object identity and the real replay did not look at it -- now a semantic claim `boh.lm_weight == scale`, replayed; (2) `lm_weight or 1.0` branches on `lm_scale != 0` under the polynomial path condition, which the incremental solver did not finish -- see 7.1 (fresh-solver retry, linear pre-check); scale 0 is now a family of concrete-0 tasks and the symbolic-scale tasks assume 0 < scale <= 3',
+    'C02-m4': 'first a harness error (np.partition / np.flatnonzero missing from the facade; then the real replay skipped inputs with a tie at the k-th place): partition modelled on the admissible top-k stub, the reference beam search of the replay now follows every tie-break',
+    'C07-m3': 'the float-only part (underflow of far-below-maximum frames) is outside the claim (reals); detected through the other half of the change: an EMPTY logit matrix (line narrower than one frame) now raises -- task F = 0 added',
+    'C07-m4': 'first a harness error (the abstract frame sequence had no .shape); added, then detected by the window claim',
+    'C11-m3': 'first missed (touching the convex hull was the same predicate as touching the region): the kernel now has a separate, weaker outcome `intersects_hull`',
+    'C11-m4': 'first a harness error: the counterexample sat on the region edge with a 0.25 px baseline and the replay oracle did not look at pre-filter drops; robust model (strictly inside, >= 3 px) and the replay reports a dropped inside line',
+    'C17-m4': 'first missed (no id set in which ids and image file names sort differently): id set [0, a.1, a] added',
+    'C12-m3': 'first a harness error: the failing paths came from the abstract de-skew tasks, whose boxes are not what the sorter ordered; the replay now also runs the page made of the de-skewed boxes',
+    'C12-m4': 'NOT detected: integer truncation inside rotate_polygon / rotate_line; the rotation is an abstract invertible map in the encoding (7.6) and replays use float arrays',
+    'C16-m3': 'first missed (each bag queried under one weight): the bag task now changes lm_weight and queries again',
+    'C16-m4': 'NOT detected: float-only (exp underflow when a frame lies > 700 below the global maximum); reals stand for floats',
+    'C14-m4': 'first missed (no bag beginning with the empty transcript in the boh tasks); bags [\'\', xx] and [\'\', x, x] added',
+    'C05-m4': 'first missed in the quick tier (labels <= 2): T = L = 3 added to the quick tier (the thorough tier had it)',
+    'C18-m3': 'NOT detected: LayoutEngine.parse (first sentence of C18, not claimed, 7.6)',
+    'C18-m4': 'NOT detected: LayoutEngine.parse (first sentence of C18, not claimed, 7.6)',
+    'C03-m3': 'first missed (aliasing: the caller\'s start state overwritten in place for k = 1): the supplied state object is compared with its value before the call',
 }
 
 
